@@ -94,6 +94,12 @@ class Acc:
         if c < 3 and len(self.viol) < self.MAXV:   # keep up to 3 examples per (class, symptom)
             self.viol.append(dict(v))
 
+    def unlisted(self, prop):
+        """number of violations recorded so far whose (class, symptom) is not a listed finding of this property: exploration of an UNBOUNDED
+        space may stop once this is positive (the verdict is decided and, on changed code, implementation states need not merge any more)"""
+        known = {(f['cls'], f['symptom']) for f in load_known()[0] if f['property'] == prop}
+        return sum(c for k, c in self.vkeys.items() if tuple(k) not in known)
+
     def dump(self):
         return {'n': self.n, 'viol': self.viol, 'nviol': self.nviol, 'vkeys': list(self.vkeys.items()),
                 'nontrivial': self.nontrivial, 'outcomes': self.outcomes, 'states': self.states,
